@@ -6,11 +6,13 @@ use crate::runner::*;
 use asefile::AsepriteFile;
 use serde_json::json;
 
-fn forest_sprite(levels: &[u16], vis: &dyn Fn(usize) -> bool) -> Sprite {
+fn forest_sprite(levels: &[u16], vis: &dyn Fn(usize) -> bool, image_parents: bool) -> Sprite {
     let n = levels.len();
     let mut s = Sprite::empty(n.min(65535) as u16, 1, Fmt::Rgba);
     for i in 0..n {
-        let is_group = i + 1 < n && levels[i + 1] > levels[i];
+        // image_parents: layers with children stay image layers (the statement defines parents by nesting
+        // level alone, not by layer type)
+        let is_group = !image_parents && i + 1 < n && levels[i + 1] > levels[i];
         let flags = if vis(i) { LF_VISIBLE } else { 0 } | 2;
         s.layers.push(Layer { flags, kind: if is_group { LayerKind::Group } else { LayerKind::Image }, level: levels[i], blend: 0, opacity: 255, name: String::new(), user_data: None });
         if !is_group && n <= 4096 {
@@ -21,8 +23,8 @@ fn forest_sprite(levels: &[u16], vis: &dyn Fn(usize) -> bool) -> Sprite {
 }
 
 /// returns (nontrivial, labels)
-fn check_forest(levels: &[u16], vis: &dyn Fn(usize) -> bool, sample_only: bool) -> Result<(bool, Vec<&'static str>), Failure> {
-    let s = forest_sprite(levels, vis);
+fn check_forest(levels: &[u16], vis: &dyn Fn(usize) -> bool, sample_only: bool, image_parents: bool) -> Result<(bool, Vec<&'static str>), Failure> {
+    let s = forest_sprite(levels, vis, image_parents);
     let mut plan = Plan::plain();
     plan.compress = 0;
     let enc = encode(&s, &plan);
@@ -136,7 +138,7 @@ fn random_forest(tape: &[u32]) -> (Vec<u16>, Vec<bool>) {
 
 fn check_random(tape: &[u32]) -> CheckResult {
     let (levels, vis) = random_forest(tape);
-    let (nt, labels) = check_forest(&levels, &|i| vis[i], false).map_err(|e| e.with(json!({"levels": levels, "visible": vis})))?;
+    let (nt, labels) = check_forest(&levels, &|i| vis[i], false, levels.len() % 2 == 1).map_err(|e| e.with(json!({"levels": levels, "visible": vis})))?;
     let mut bytes = vec![];
     for (l, v) in levels.iter().zip(&vis) {
         bytes.extend_from_slice(&l.to_le_bytes());
@@ -151,13 +153,18 @@ fn check_random(tape: &[u32]) -> CheckResult {
 
 pub fn run(run: &mut Run) {
     let nmax = if run.thorough() { 10 } else { 8 };
-    run.rule = format!("exhaustive: every level sequence of length 1..={} with level[0]=0 and level[i] <= level[i-1]+1, times every assignment of visible flags; layers with children are groups, leaves are image layers owning one opaque 1x1 cel at their own canvas pixel. Oracle: parent() = nearest preceding layer of smaller level (hence lower id), is_visible() = AND over ancestors, frame pixel i opaque iff leaf i is visible per the model. Plus random forests of 9-400 layers (proptest tapes) and chains of depth 1000 / 65535. non-trivial: depth >= 2, or a hidden ancestor above a visible descendant, or a sibling following a nested group; distinct by (levels, flags)", nmax);
+    run.rule = format!("exhaustive: every level sequence of length 1..={} with level[0]=0 and level[i] <= level[i-1]+1, times every assignment of visible flags; each forest is checked twice: with layers that have children being groups (leaves are image layers owning one opaque 1x1 cel at their own canvas pixel) and with every layer being an image layer with a cel (the statement defines parents by nesting level, not by layer type). Oracle: parent() = nearest preceding layer of smaller level (hence lower id), is_visible() = AND over ancestors, frame pixel i opaque iff leaf i is visible per the model. Plus random forests of 9-400 layers (proptest tapes) and chains of depth 1000 / 65535. non-trivial: depth >= 2, or a hidden ancestor above a visible descendant, or a sibling following a nested group; distinct by (levels, flags)", nmax);
     run.exhaustive = Some(true);
-    let mut cases: Vec<(Vec<u16>, u32)> = vec![];
+    // (levels, visible mask, image_parents)
+    let mut cases: Vec<(Vec<u16>, u32, bool)> = vec![];
     for n in 1..=nmax {
         for seq in all_sequences(n) {
+            let has_parent = seq.iter().any(|l| *l > 0);
             for mask in 0..(1u32 << n) {
-                cases.push((seq.clone(), mask));
+                cases.push((seq.clone(), mask, false));
+                if has_parent {
+                    cases.push((seq.clone(), mask, true));
+                }
             }
         }
     }
@@ -166,13 +173,16 @@ pub fn run(run: &mut Run) {
         cases.len() as u64,
         || (Stats::default(), Vec::<Violation>::new()),
         |acc, i| {
-            let (seq, mask) = &cases[i as usize];
+            let (seq, mask, imgp) = &cases[i as usize];
             let r = check_guarded(|| {
-                let (nt, labels) = check_forest(seq, &|k| mask & (1 << k) != 0, false)?;
-                let mut o = Outcome::new(nt, ((seq.iter().fold(seq.len() as u64, |a, b| a * 9 + *b as u64)) << 8) | *mask as u64);
+                let (nt, labels) = check_forest(seq, &|k| mask & (1 << k) != 0, false, *imgp)?;
+                let mut o = Outcome::new(nt, ((seq.iter().fold(seq.len() as u64, |a, b| a * 11 + *b as u64)) << 12) | (*mask as u64) << 1 | *imgp as u64);
                 o.labels = labels.into_iter().map(|s| s.to_string()).collect();
+                if *imgp {
+                    o.labels.push("image-layer-parents".into());
+                }
                 if nt {
-                    o.sample = Some(json!({"levels": seq, "visible_mask": mask}));
+                    o.sample = Some(json!({"levels": seq, "visible_mask": mask, "image_parents": imgp}));
                 }
                 Ok(o)
             });
@@ -181,7 +191,7 @@ pub fn run(run: &mut Run) {
                 Err(f) => {
                     acc.0.evaluations += 1;
                     if acc.1.len() < 2 {
-                        acc.1.push(Violation { case: json!({"levels": seq, "visible_mask": mask}), failure: f.with(json!({"levels": seq, "visible_mask": mask})) });
+                        acc.1.push(Violation { case: json!({"levels": seq, "visible_mask": mask, "image_parents": imgp}), failure: f.with(json!({"levels": seq, "visible_mask": mask, "image_parents": imgp})) });
                     }
                 }
             }
@@ -204,7 +214,7 @@ pub fn run(run: &mut Run) {
         let levels: Vec<u16> = (0..depth).map(|i| i as u16).collect();
         for hide in [usize::MAX, 0, 1, depth / 2, depth - 2, depth - 1] {
             let r = check_guarded(|| {
-                let (nt, _) = check_forest(&levels, &|i| i != hide, true)?;
+                let (nt, _) = check_forest(&levels, &|i| i != hide, true, false)?;
                 Ok(Outcome::new(nt, (depth as u64) << 20 | (hide as u64 & 0xFFFFF)).label("deep-chain"))
             });
             run.direct(|| json!({"chain_depth": depth, "hidden": hide}), r);
@@ -221,9 +231,10 @@ pub fn replay(case: &serde_json::Value) -> CheckResult {
     if let Some(d) = case.get("chain_depth").and_then(|d| d.as_u64()) {
         let hide = case.get("hidden").and_then(|d| d.as_u64()).unwrap_or(u64::MAX) as usize;
         let levels: Vec<u16> = (0..d as usize).map(|i| i as u16).collect();
-        return check_guarded(|| check_forest(&levels, &|i| i != hide, true).map(|_| Outcome::new(true, 0)));
+        return check_guarded(|| check_forest(&levels, &|i| i != hide, true, false).map(|_| Outcome::new(true, 0)));
     }
     let levels: Vec<u16> = case.get("levels").and_then(|l| l.as_array()).map(|a| a.iter().map(|x| x.as_u64().unwrap_or(0) as u16).collect()).ok_or_else(|| Failure::new("bad-replay", "no levels"))?;
     let mask = case.get("visible_mask").and_then(|m| m.as_u64()).unwrap_or(0) as u32;
-    check_guarded(|| check_forest(&levels, &|k| mask & (1 << k) != 0, false).map(|_| Outcome::new(true, 0)))
+    let imgp = case.get("image_parents").and_then(|m| m.as_bool()).unwrap_or(false);
+    check_guarded(|| check_forest(&levels, &|k| mask & (1 << k) != 0, false, imgp).map(|_| Outcome::new(true, 0)))
 }
